@@ -16,6 +16,6 @@ spec fn moved_one_slot(t: int, from: Seq<SearchPath>, to: Seq<SearchPath>, j: in
     &&& from.subrange(0, j) =~= to.subrange(0, j)
     &&& to[j].id == from[j].id && to[j].index == from[j].index + 1
     &&& forall|k: int| j < k < from.len() ==> (#[trigger] from[k]).index + 1 >= node_len(t, from[k].id)
-    &&& forall|k: int| j < k < to.len() ==> (#[trigger] to[k]).index == 0
+    &&& forall|k: int| j < k < to.len() ==> (#[trigger] to[k]).index == 0 && !node_leaf(t, to[k - 1].id)
             && to[k].id == PageNodeID::Page(node_child(t, to[k - 1].id, to[k - 1].index as int))
 }
